@@ -1092,10 +1092,10 @@ fn c09_probe(c: &Chain, o: &HubObs, cx: &mut Cx) {
                     if cc.bal(u, USEI) <= before {
                         cx.viol("C09.can_withdraw", "withdraw succeeded without paying", format!("{} {}", u, tok));
                     }
-                } else if !rw.err().contains("No withdrawable") {
-                    cx.viol("C09.can_withdraw", format!("withdraw after the unbonding period fails: {}", crate::unbondlc::classify_err(rw.err())), format!("{} exit of {} {}: {}", u, amt, tok, rw.err()));
-                } else if val >= 1 + 3 * n + (c.unbonding.len() as u128) * 2 && c.unbonding.iter().all(|x| x.balance == x.initial) && cc.bal(HUB, USEI) >= val {
-                    cx.viol("C09.can_withdraw", "claims worth at least one unit refused after the unbonding period", format!("{} exit of {} {}: nominal value {} over {} claims", u, amt, tok, val, n));
+                } else if val >= 1 + 3 * n + (c.unbonding.len() as u128) * 2 && c.unbonding.iter().all(|x| x.balance == x.initial) {
+                    // verdict by the value of the claims, not by the wording of the error
+                    let what = if rw.err().contains("No withdrawable") { "claims worth at least one unit refused after the unbonding period".to_string() } else { format!("withdraw after the unbonding period fails: {}", crate::unbondlc::classify_err(rw.err())) };
+                    cx.viol("C09.can_withdraw", what, format!("{} exit of {} {}: nominal value {} over {} claims: {}", u, amt, tok, val, n, rw.err()));
                 }
             }
         }
